@@ -69,7 +69,7 @@ func (c *Converter) ExpandUpdate(ctx context.Context, upd *sdcpb.Update, include
 		var v interface{}
 		var err error
 		var jsonDecoder *json.Decoder
-		switch upd.GetValue().Value.(type) {
+		switch upd.GetValue().GetValue().(type) {
 		case *sdcpb.TypedValue_JsonIetfVal:
 			jsonDecoder = json.NewDecoder(bytes.NewReader(upd.GetValue().GetJsonIetfVal()))
 		case *sdcpb.TypedValue_JsonVal:
@@ -96,7 +96,7 @@ func (c *Converter) ExpandUpdate(ctx context.Context, upd *sdcpb.Update, include
 		var err error
 
 		var jsonValue []byte
-		switch upd.GetValue().Value.(type) {
+		switch upd.GetValue().GetValue().(type) {
 		case *sdcpb.TypedValue_JsonVal:
 			jsonValue = upd.GetValue().GetJsonVal()
 		case *sdcpb.TypedValue_JsonIetfVal:
@@ -386,7 +386,7 @@ func TypedValueToYANGType(tv *sdcpb.TypedValue, schemaObject *sdcpb.SchemaElem) 
 		lt = schemaObject.GetLeaflist().GetType()
 	}
 	if lt != nil {
-		switch tv.Value.(type) {
+		switch tv.GetValue().(type) {
 		case *sdcpb.TypedValue_LeaflistVal:
 			if schemaObject.GetLeaflist() != nil {
 				return ConvertTypedValueToYANGType(schemaObject, tv)
@@ -405,7 +405,7 @@ func TypedValueToYANGType(tv *sdcpb.TypedValue, schemaObject *sdcpb.SchemaElem) 
 		// a single value (of a leaf or one element of a leaf-list) in the YANG type
 		return convertScalarToYANGType(lt, tv)
 	}
-	switch tv.Value.(type) {
+	switch tv.GetValue().(type) {
 	case *sdcpb.TypedValue_AsciiVal:
 		return ConvertToTypedValue(schemaObject, tv.GetAsciiVal(), tv.GetTimestamp())
 	case *sdcpb.TypedValue_StringVal:
@@ -897,7 +897,7 @@ func convertUpdateTypedValue(_ context.Context, upd *sdcpb.Update, scRsp *sdcpb.
 			return nil, nil
 		}
 		// regular leaf list
-		switch upd.GetValue().Value.(type) {
+		switch upd.GetValue().GetValue().(type) {
 		case *sdcpb.TypedValue_LeaflistVal, *sdcpb.TypedValue_JsonVal, *sdcpb.TypedValue_JsonIetfVal:
 			ctv, err := TypedValueToYANGType(upd.GetValue(), scRsp.GetSchema())
 			if err != nil {
